@@ -61,7 +61,8 @@ PROPS = {
                  "error, every later answer is checked exactly; a second phase injects random multi-fault plans across "
                  "whole histories; non-trivial = at least one injected fault actually fired",
                  design_ref="DESIGN.md 5 C17", level="fault_enumeration",
-                 phases=[{"profile": "C17", "share": 0.75}, {"profile": "C17multi", "share": 0.25}]),
+                 phases=[{"profile": "C17", "share": 0.75}, {"profile": "C17multi", "share": 0.25}],
+                 phases_thorough=[{"profile": "C17all", "share": 0.75}, {"profile": "C17multi", "share": 0.25}], limit_s=240),
     "C18": _hist(2500, 60000, "histories on every frontend class with restarts as the crash model: in-process pickle round "
                  "trips that replace the solver or create a twin driven alongside it, expression round trips "
                  "(loads(dumps(e)) is e), and fresh-interpreter restarts (only the pickles survive; new process, other "
@@ -216,7 +217,7 @@ def absorb(agg, res, hashseed):
             agg.setdefault("crashes", []).append({"idx": res.get("_id", res.get("idx")), "signal": res.get("signal"),
                                                    "hashseed": hashseed})
         if len(agg["errors"]) < 20:
-            agg["errors"].append({k: res.get(k) for k in ("status", "idx", "error", "signal", "wait_status")})
+            agg["errors"].append({k: res.get(k, res.get("_id") if k == "idx" else None) for k in ("status", "idx", "error", "signal", "wait_status")})
     elif "record" in res and len(agg["samples"]) < 6:
         rec = res["record"]
         sample = {"run_index": res.get("idx"), "config": rec["config"], "digest": d}
@@ -412,7 +413,7 @@ def check_main(prop, tier, seed=None, runs=None, opts=None):
     if runs is None:
         runs = int(os.environ.get("VERIF_RUNS", P[tier]))
     print(f"SEED {seed} property={prop} tier={tier} runs={runs} repo={REPO} tree={repo_tree_digest()}", flush=True)
-    phases = P.get("phases")
+    phases = P.get("phases_thorough") if (tier == "thorough" and P.get("phases_thorough")) else P.get("phases")
     if phases and not (opts and (opts.get("profile") or opts.get("granularity"))):
         agg = None
         for ph in phases:
